@@ -4,10 +4,10 @@
 package contracts
 
 //@ extern fmt.Errorf
-//@   ensures result != nil
+//@   ensures result != nil && !typeis(result, *exception) && !typeis(result, syscall.Errno)
 //@
 //@ extern errors.New
-//@   ensures result != nil
+//@   ensures result != nil && !typeis(result, *exception)
 //@
 //@ extern dirtmake.Bytes
 //@   params ln cp
@@ -116,3 +116,18 @@ package contracts
 //@   ensures old(t.tstate) == 2 ==> !result && t.tstate == 2
 //@   ensures old(t.tstate) == 1 ==> (result && t.tstate == 0) || (!result && t.tstate == 2)
 //@   modifies t.tstate
+//@
+//@ extern syscall.Write
+//@   params fd p
+//@   results n err
+//@   note write(2): counted per descriptor (ghost evwrites)
+//@   ensures evwrites[fd] == old(evwrites[fd]) + 1
+//@   ensures forall x int :: x != fd ==> evwrites[x] == old(evwrites[x])
+//@   modifies evwrites
+//@
+//@ extern syscall.Read
+//@   params fd p
+//@   results n err
+//@   note read(2): fills a prefix of p
+//@   ensures n <= len(p)
+//@   modifies mem
